@@ -109,6 +109,7 @@ class TextObject:
 
         if (
             self.type == TextObjectType.EXCLUSIVE
+            and start < end
             and doc.translate_index_to_position(end + doc.cursor_position)[1] == 0
         ):
             # If the motion is exclusive and the end of motion is on the first
@@ -147,6 +148,13 @@ class TextObject:
         Turn text object into `ClipboardData` instance.
         """
         from_, to = self.operator_range(buffer.document)
+
+        # An empty range (failed motion, empty text object) cuts nothing.
+        if self.type != TextObjectType.LINEWISE and from_ >= to:
+            return (
+                Document(buffer.text, buffer.cursor_position),
+                ClipboardData("", self.selection_type),
+            )
 
         from_ += buffer.cursor_position
         to += buffer.cursor_position
@@ -207,8 +215,11 @@ def create_text_object_decorator(
             )
             def _apply_operator_to_text_object(event: E) -> None:
                 # Arguments are multiplied.
+                # (Only when a count was typed: text objects like '%' and 'gg'
+                # behave differently with and without a count.)
                 vi_state = event.app.vi_state
-                event._arg = str((vi_state.operator_arg or 1) * (event.arg or 1))
+                if vi_state.operator_arg is not None or event.arg_present:
+                    event._arg = str((vi_state.operator_arg or 1) * (event.arg or 1))
 
                 # Call the text object handler.
                 text_obj = text_object_func(event)
@@ -331,8 +342,20 @@ def create_operator_decorator(
                 # When this key binding is matched, only set the operator
                 # function in the ViState. We should execute it after a text
                 # object has been received.
-                event.app.vi_state.operator_func = operator_func
-                event.app.vi_state.operator_arg = event.arg
+                # The operator function is called with the event of the text
+                # object. Give it the key sequence of the operator itself:
+                # the register variants ('"', Keys.Any, 'y') read the register
+                # name from `event.key_sequence[1]`.
+                operator_key_sequence = event.key_sequence
+
+                def call_operator(text_object_event: E, text_object: TextObject) -> None:
+                    text_object_event.key_sequence = operator_key_sequence
+                    operator_func(text_object_event, text_object)
+
+                event.app.vi_state.operator_func = call_operator
+                event.app.vi_state.operator_arg = (
+                    event.arg if event.arg_present else None
+                )
 
             @key_bindings.add(
                 *keys,
@@ -1201,7 +1224,8 @@ def load_vi_bindings() -> KeyBindingsBase:
         c = event.key_sequence[1].data
         if c in vi_register_names:
             _, clipboard_data = text_object.cut(event.current_buffer)
-            event.app.vi_state.named_registers[c] = clipboard_data
+            if clipboard_data.text:
+                event.app.vi_state.named_registers[c] = clipboard_data
 
     @operator(">")
     def _indent_text_object(event: E, text_object: TextObject) -> None:
